@@ -23,31 +23,59 @@ theorem ioEnd_timed (s : Step) (h : s.timed = true) (start timeout : Nat) (deadl
     · exact ⟨start + l, rfl, by omega, by omega⟩
     · exact ⟨e, rfl, h1, h2⟩
 
-theorem runTrace_bounded (timeout : Nat) (deadline : Option Nat) (sched : List (Step × Nat × Option Nat)) :
-    (∀ x ∈ sched, x.1.timed = true) → ∀ now, ∀ e ∈ runTrace timeout deadline sched now,
-      ∃ t, e.stop = some t ∧ e.start ≤ t ∧ t ≤ e.start + timeout := by
+/-- What "bounded" means for one executed call. -/
+def Ev.bounded (timeout : Nat) (e : Ev) : Prop := ∃ t, e.stop = some t ∧ e.start ≤ t ∧ t ≤ e.start + timeout
+
+theorem callRun_bounded (s : Step) (h : s.timed = true) (timeout : Nat) (deadline : Option Nat)
+    (skips : List Nat) (final : Option Nat) :
+    ∀ start, ∀ e ∈ (callRun s timeout deadline skips final start).1, e.bounded timeout := by
+  induction skips with
+  | nil =>
+    intro start e he
+    obtain ⟨t, ht, h1, h2⟩ := ioEnd_timed s h start timeout deadline final
+    simp only [callRun] at he
+    split at he
+    · rename_i t' heq
+      rw [heq] at ht; simp only [Option.some.injEq] at ht; subst ht
+      have := List.mem_singleton.mp he; subst this
+      exact ⟨t', rfl, h1, h2⟩
+    · rename_i e' b' _ heq
+      rw [heq] at ht; simp only at ht
+      have := List.mem_singleton.mp he; subst this
+      exact ⟨t, ht, h1, h2⟩
+  | cons k ks ih =>
+    intro start e he
+    obtain ⟨t, ht, h1, h2⟩ := ioEnd_timed s h start timeout deadline (some k)
+    simp only [callRun] at he
+    split at he
+    · rename_i t' heq
+      rw [heq] at ht; simp only [Option.some.injEq] at ht; subst ht
+      split at he
+      · rcases List.mem_cons.mp he with h' | h'
+        · subst h'; exact ⟨t', rfl, h1, h2⟩
+        · exact ih t' e h'
+      · have := List.mem_singleton.mp he; subst this
+        exact ⟨t', rfl, h1, h2⟩
+    · rename_i e' b' _ heq
+      rw [heq] at ht; simp only at ht
+      have := List.mem_singleton.mp he; subst this
+      exact ⟨t, ht, h1, h2⟩
+
+theorem runTrace_bounded (timeout : Nat) (deadline : Option Nat) (sched : List (Step × Beh)) :
+    (∀ x ∈ sched, x.1.timed = true) → ∀ now, ∀ e ∈ runTrace timeout deadline sched now, e.bounded timeout := by
   induction sched with
   | nil => intro _ now e he; simp [runTrace] at he
   | cons x rest ih =>
     intro hall now e he
-    obtain ⟨s, gap, lat⟩ := x
-    have hs : s.timed = true := hall (s, gap, lat) (by simp)
-    obtain ⟨t, ht, h1, h2⟩ := ioEnd_timed s hs (now + gap) timeout deadline lat
+    obtain ⟨s, b⟩ := x
+    have hs : s.timed = true := hall (s, b) (by simp)
+    have hc := callRun_bounded s hs timeout deadline b.skips b.final (now + b.gap)
     simp only [runTrace] at he
     split at he
-    · rename_i t' heq
-      rw [heq] at ht
-      simp only [Option.some.injEq] at ht
-      subst ht
-      rcases List.mem_cons.mp he with h | h
-      · subst h; exact ⟨t', rfl, h1, h2⟩
-      · exact ih (fun y hy => hall y (List.mem_cons_of_mem _ hy)) t' e h
-    · rename_i e' b' _ heq
-      rw [heq] at ht
-      simp only at ht
-      have := List.mem_singleton.mp he
-      subst this
-      exact ⟨t, ht, h1, h2⟩
+    · rcases List.mem_append.mp he with h' | h'
+      · exact hc e h'
+      · exact ih (fun y hy => hall y (List.mem_cons_of_mem _ hy)) _ e h'
+    · exact hc e he
 
 theorem stallAt_timed (ss : List Step) (k gap lat : Nat) (h : ss.all (·.timed) = true) :
     ∀ x ∈ stallAt ss k gap lat, x.1.timed = true := by
@@ -56,5 +84,52 @@ theorem stallAt_timed (ss : List Step) (k gap lat : Nat) (h : ss.all (·.timed) 
   obtain ⟨⟨i, s⟩, hm, rfl⟩ := List.mem_map.mp hx
   have hs : s ∈ ss := (List.of_mem_zip hm).2
   exact (List.all_eq_true.mp h) s hs
+
+/-- A step against a peer that sends `skips.length` −404 frames: the step as a whole is over within
+`(skips.length + 1) · timeout` of its start (each frame re-arms the timeout once). -/
+theorem callRun_total (s : Step) (h : s.timed = true) (timeout : Nat) (deadline : Option Nat)
+    (skips : List Nat) (final : Option Nat) :
+    ∀ start, ∀ e ∈ (callRun s timeout deadline skips final start).1,
+      ∃ t, e.stop = some t ∧ t ≤ start + (skips.length + 1) * timeout := by
+  induction skips with
+  | nil =>
+    intro start e he
+    obtain ⟨t, ht, h1, h2⟩ := callRun_bounded s h timeout deadline [] final start e he
+    have hst : e.start = start := by
+      simp only [callRun] at he
+      split at he <;> (have := List.mem_singleton.mp he; subst this; rfl)
+    exact ⟨t, ht, by simp; omega⟩
+  | cons k ks ih =>
+    intro start e he
+    obtain ⟨t, ht, h1, h2⟩ := ioEnd_timed s h start timeout deadline (some k)
+    simp only [callRun] at he
+    split at he
+    · rename_i t' heq
+      rw [heq] at ht; simp only [Option.some.injEq] at ht; subst ht
+      split at he
+      · rcases List.mem_cons.mp he with h' | h'
+        · subst h'
+          refine ⟨t', rfl, ?_⟩
+          simp only [List.length_cons]
+          have : timeout ≤ (ks.length + 1 + 1) * timeout := Nat.le_mul_of_pos_left _ (by omega)
+          omega
+        · obtain ⟨u, hu, hb⟩ := ih t' e h'
+          refine ⟨u, hu, ?_⟩
+          simp only [List.length_cons]
+          have : (ks.length + 1 + 1) * timeout = (ks.length + 1) * timeout + timeout := by
+            rw [Nat.add_mul, Nat.one_mul]
+          omega
+      · have := List.mem_singleton.mp he; subst this
+        refine ⟨t', rfl, ?_⟩
+        simp only [List.length_cons]
+        have : timeout ≤ (ks.length + 1 + 1) * timeout := Nat.le_mul_of_pos_left _ (by omega)
+        omega
+    · rename_i e' b' _ heq
+      rw [heq] at ht; simp only at ht
+      have := List.mem_singleton.mp he; subst this
+      refine ⟨t, ht, ?_⟩
+      simp only [List.length_cons]
+      have : timeout ≤ (ks.length + 1 + 1) * timeout := Nat.le_mul_of_pos_left _ (by omega)
+      omega
 
 end TdModel.C12
